@@ -7,6 +7,26 @@ VERIF = Path(__file__).resolve().parent.parent
 
 # property id -> (design section, what the theorems give, what is assumed)
 CLAIMS = {
+    "C01": ("8/C01",
+            "Lean 4 theorems over any ordered field and any PowLike exponent function (instantiated for every real alpha > 0): "
+            "the stretching kernel hits its target integral for both rules (stretch_integral), the interval loop leaves every "
+            "window with its target although windows share end samples (loop_integrals), the array-level loop the driver runs "
+            "computes that loop (loopA_eq_loop), and matchRef_intervals / matchRef_total: for all three ways of designating "
+            "fixed points, the target-rule integral of the result between consecutive fixed samples equals the reference-rule "
+            "integral over the corresponding reference interval. Tie: differential correspondence of the native model with "
+            "integral_matching_reference_stretch (values, error kinds) on structured random cases.",
+            "exact field arithmetic instead of IEEE doubles (values compared with 1e-9 relative tolerance on dyadic-lattice "
+            "inputs); np.unique/isin/take/where modelled concretely; negative (wrapping) fixed-point indices and the optional "
+            "final spline smoothing are not modelled."),
+    "C03": ("8/C03",
+            "Lean 4 theorems: displacement = yhat * weight with weight = 1 - pw(2|x-c|/width) (stretch_profile), weights vanish "
+            "at the window ends, are positive inside, symmetric, antitone in the distance from the centre and 1 at the centre; "
+            "all displacements of a window have one sign and are proportional to the weights; samples outside the fixed span "
+            "and the fixed points themselves are returned unchanged (matchRef_outside_fixed); matching is idempotent "
+            "(matchRef_idempotent); the kernel is linear, hence affine, in (y, target). Tie: correspondence on the matching "
+            "function (incl. a second pass) and on the kernel alone (displacement vectors, affine law).",
+            "as C01; 'unchanged' is exact in the model and compared with 1e-9 tolerance on the implementation (end weights are "
+            "computed in floating point)."),
     "C10": ("8/C10",
             "Lean 4 theorems: each of the three two-pointer scans, modelled as the loops the code runs, returns for every "
             "strictly increasing array and every non-decreasing query list exactly the specified neighbour index "
@@ -26,7 +46,7 @@ NOT_YET = {
 ALL = [f"C{n:02d}" for n in range(1, 21)]
 
 # properties whose theorems, tie and check are complete enough to be claimed
-BUILT = ["C10"]
+BUILT = ["C01", "C03", "C10"]
 
 
 
